@@ -173,11 +173,19 @@ fn render_callback_module(idx: usize, sd: &SubjectDef) -> String {
         let cbexpr = |leaf: usize, p: &crate::spec::PatSpec| -> Option<(String, u8)> {
             p.callback.as_ref().map(|cb| {
                 let f = format!("{lower}cb{leaf}");
+                // forms 4/5: inline closure whose body is an expression starting with a group (or is a block)
+                let grouped = match cb.ret {
+                    1 => format!("|lex| (lex.span().start <= lex.span().end) && {f}(lex)"),
+                    12 => format!("|lex| (Some(0u64)).and({f}(lex))"),
+                    _ => format!("|lex| {{ let r = {f}(lex); r }}"),
+                };
                 match cb.form {
                     0 => (f, 0),
                     1 => (format!("|lex| {f}(lex)"), 0),
                     2 => (format!("callback = {f}"), 1),
-                    _ => (format!("callback = |lex| {f}(lex)"), 1),
+                    3 => (format!("callback = |lex| {f}(lex)"), 1),
+                    4 => (grouped, 0),
+                    _ => (format!("callback = {grouped}"), 1),
                 }
             })
         };
@@ -361,7 +369,16 @@ pub fn stress_defs() -> Vec<SubjectDef> {
         error_cb: false,
         twin: true,
     });
-    // 3: callbacks family shape: skipping through callbacks (Skip and Filter::Skip) and a skip pattern with a callback
+    // 3: every pattern starts with the same optional repetition: the root of the graph loops on itself
+    out.push(SubjectDef {
+        family: "stress".into(),
+        def: DefSpec { utf8: true, subpatterns: vec![], skips: vec![], variants: vec![vec![rx(" *[a-z]+")], vec![rx(" *[0-9]+")], vec![rx(" *;")]] },
+        skip_log: false,
+        has_value: vec![],
+        error_cb: false,
+        twin: true,
+    });
+    // 4: callbacks family shape: skipping through callbacks (Skip and Filter::Skip) and a skip pattern with a callback
     let mut sk = rx("-");
     sk.callback = Some(CbSpec { ret: 16, salt: 1, bump: 0, form: 2 });
     let mut c1 = rx(" ");
